@@ -48,6 +48,16 @@ func applyTrailers(expr ast.Expr, trailers []ast.Expr) ast.Expr {
 
 // Set the context for expr
 func setCtx(yylex yyLexer, expr ast.Expr, ctx ast.ExprContext) {
+	// Check the elements first so that one which can't be a
+	// target is reported as a syntax error
+	switch x := expr.(type) {
+	case *ast.Tuple:
+		setCtxs(yylex, x.Elts, ctx)
+	case *ast.List:
+		setCtxs(yylex, x.Elts, ctx)
+	case *ast.Starred:
+		setCtx(yylex, x.Value, ctx)
+	}
 	setctxer, ok := expr.(ast.SetCtxer)
 	if !ok {
 		expr_name := ""
